@@ -144,6 +144,28 @@ def run_case(case):
            {c for b in jp["ballots"] if Fraction(b["w"]) > 0 for c in (b.get("s") or {})}
     if cast == set(prof.candidates):
         variants.append(("cands-omitted", dict(case, profile=dict(jp, cands=None)), None))
+    # the pairwise utilities of the property's list (Condorcet queries, dominating tiers) under the same variants
+    def pw_summary(c, back=None):
+        from votekit.graphs import PairwiseComparisonGraph
+        p2 = call_impl(vk.mk_profile, c["profile"])
+        if isinstance(p2, Err) or any(not b.ranking for b in p2.ballots) or len(p2.candidates) > 6:
+            return None
+        g = call_impl(PairwiseComparisonGraph, p2)
+        if isinstance(g, Err):
+            return repr(g)
+        mp = (lambda x: back.get(x, x)) if back else (lambda x: x)
+        has = call_impl(g.has_condorcet_winner)
+        win = call_impl(g.get_condorcet_winner)
+        tiers = call_impl(g.dominating_tiers)
+        return [repr(has) if isinstance(has, Err) else bool(has), repr(win) if isinstance(win, Err) else mp(str(win)),
+                repr(tiers) if isinstance(tiers, Err) else [sorted(mp(str(x)) for x in t) for t in tiers]]
+    pw_base = pw_summary(case)
+    if pw_base is not None:
+        for name, vc, back in variants:
+            if pw_summary(vc, back) != pw_base:
+                oracle.append(f"variant '{name}' changes the Condorcet queries / dominating tiers of the pairwise graph")
+                break
+        tags.append("pairwise-queries")
     for name, vc, back in variants:
         e2 = run_one(vc)
         if isinstance(e2, Err):
